@@ -33,6 +33,10 @@ def main():  # noqa
     except Exception:
         chk.machinery_violation('harness error', traceback.format_exc()[-3000:])
     try:
+        chk.flush_breaks()
+    except Exception:
+        chk.machinery_violation('harness error', traceback.format_exc()[-3000:])
+    try:
         import source_pins
         broken = source_pins.check(chk, common.REPO)
         if broken:
